@@ -539,3 +539,48 @@ def replay_runtime_index_offset(payload):
 # that comparison are these writers -- their contracts state the value of the emitted text as a function of the operand values
 for _q in ("BinOp.write", "Compare.write", "UnaryOp.write"):
     contract("cohdl._compiler.backend.vhdl._vhdl_repr:" + _q, ("C09",))
+
+
+# bitwise operators on RUN-TIME integers (`int_port & 3`): VHDL has no `and` / `or` / `xor` for the type integer -- `(i) and (3)` is not
+# an expression of the emitted language; the design has to be rejected
+from cohdl import Integer as _Integer  # noqa: E402
+
+
+def integer_operand(pfx):
+    return Built([pfx + "k"], lambda env: tq(SObj(_Integer, _val=env[pfx + "k"], _value=env[pfx + "k"])), lambda asg: f"cohdl.Signal[int]({asg[pfx + 'k']})", lambda asg: asg[pfx + "k"])
+
+
+def _reject_spec(sx, a, b):
+    sx.reject(AssertionError)
+
+
+_bcon = C.CONTRACTS["cohdl._compiler.backend.vhdl._vhdl_repr:BinOp.write"]
+for _op in (VR.BinOp.Operator.BIT_AND, VR.BinOp.Operator.BIT_OR, VR.BinOp.Operator.BIT_XOR):
+    for _nm, _shapes in (("Integer,int", [integer_operand("a"), int_operand("b")]), ("int,Integer", [int_operand("a"), integer_operand("b")]), ("Integer,Integer", [integer_operand("a"), integer_operand("b")])):
+        _c = add_case(_bcon, f"{_op.name}:{_nm}", VR.BinOp, _op, _shapes, _reject_spec)
+        _c.may_reject = None
+        _c.custom_replay = "contracts.c02_ops.replay_integer_bitwise"
+
+_INT_BITWISE_DESIGN = '''
+import cohdl
+from cohdl import Port, std
+class IntBitwise(cohdl.Entity):
+    i = Port.input(int)
+    o = Port.output(int)
+    def architecture(self):
+        @std.concurrent
+        def logic():
+            self.o <<= self.i & 3
+try:
+    t = std.VhdlCompiler.to_string(IntBitwise)
+    print("ACCEPTED", [l.strip() for l in t.splitlines() if " and " in l])
+except AssertionError:
+    print("REJECTED")
+'''
+
+
+def replay_integer_bitwise(payload):
+    from contracts.c06_extra import _run_design
+
+    rc, out = _run_design(_INT_BITWISE_DESIGN)
+    return {"reproduced": "ACCEPTED" in out, "detail": "`self.o <<= self.i & 3` with integer ports: " + out[-100:]}
